@@ -4,6 +4,7 @@ mod c03;
 mod c04;
 mod c05;
 mod c06;
+mod c07;
 mod c08;
 mod c09;
 mod c10;
@@ -88,6 +89,7 @@ fn main() {
         "C04" => c04::main(tier, replay),
         "C05" => c05::main(tier, replay, wa),
         "C06" => c06::main(tier, replay),
+        "C07" => c07::main(tier, replay),
         "C08" => c08::main(tier, replay),
         "C09" => c09::main(tier, replay),
         "C10" => c10::main(tier, replay),
